@@ -145,7 +145,7 @@ def check_c07(c):
 
 def check_c13(c):
     generic(
-        c, "c13", ["Properties/C13.v"], ["Proofs/CompactProofs.v", "Proofs/ExpiryProofs.v", "Proofs/StackSeqProofs.v"],
+        c, "c13", ["Properties/C13.v"], ["Proofs/CompactProofs.v", "Proofs/ExpiryProofs.v", "Proofs/ExpiryCorollaries.v", "Proofs/StackSeqProofs.v"],
         what_tie="CompactAll(expiry) vs Model/StackSeq.stack_compact_all / Compact.keep_log",
         rule=HIST_RULE + "; every history ends with an expiry; limits unset / below / inside / above the data",
         nontrivial=lambda cmd, args, impl: "CE:" in args,
